@@ -291,7 +291,8 @@ def check_case(
         st["exhaust_streams"] += k
         if len(reached) == len(permitted):
             st["exhaust_complete"] += 1
-            st["exhaust_max_streams_to_complete"] = max(st["exhaust_max_streams_to_complete"], n_streams)
+            bucket = "le_64" if n_streams <= 64 else "le_512" if n_streams <= 512 else "le_4096" if n_streams <= 4096 else "gt_4096"
+            st[f"exhaust_streams_to_complete_{bucket}"] += 1
         elif last_new > 0.9 * n_streams:
             st["exhaust_undecided"] += 1
         else:
